@@ -12,6 +12,7 @@ not = not all) and, independently of any evaluation, compares the parse tree of 
 """
 from __future__ import annotations
 import contextlib
+import copy
 import io
 import itertools
 import json
@@ -134,6 +135,20 @@ REAL: Dict[str, List[Any]] = {
          "status": "active", "log-group": "vpc-logs"},
         {"type": "flow-logs", "enabled": False},
         {"type": "value", "key": "c", "op": "in", "value": ["p", "q"]},
+        {"type": "unused"},
+        {"type": "used"},
+    ],
+    "ebs": [
+        {"type": "value", "key": "a", "op": "eq", "value": 1},
+        {"type": "unused"},
+        {"type": "used"},
+        {"type": "unused", "value": False},
+        {"type": "value", "key": "b", "op": "ne", "value": "x"},
+    ],
+    "iam-role": [
+        {"type": "unused"},
+        {"type": "value", "key": "a", "op": "eq", "value": 1},
+        {"type": "used", "value": False},
     ],
     "elb": [
         {"type": "is-logging", "bucket": "b"},
@@ -242,11 +257,23 @@ def fill(t, mk):
     return go(t)
 
 
-def to_c7n(t, leaf_filter):
-    """the Python object Custodian's YAML would give"""
+def to_c7n(t, leaf_filter, share: Optional[Dict[str, Any]] = None):
+    """the Python object Custodian's YAML would give.  With `share` (a dict used as a memo) equal sub-trees -- the same
+    clause, or the same group, written once and referred to again by a YAML alias (`- &x {type: unused}` ... `- *x`) --
+    become ONE Python object placed in several positions, which is what yaml gives for anchors / aliases (and what
+    yaml.safe_dump writes back as anchors / aliases)."""
+    if share is not None:
+        k = json.dumps(t, sort_keys=True)
+        if k not in share:
+            share[k] = _to_c7n1(t, leaf_filter, share)
+        return share[k]
+    return _to_c7n1(t, leaf_filter, share)
+
+
+def _to_c7n1(t, leaf_filter, share):
     if t[0] == "prim":
         return leaf_filter(t[1])
-    kids = [to_c7n(c, leaf_filter) for c in t[1]]
+    kids = [to_c7n(c, leaf_filter, share) for c in t[1]]
     return kids if t[0] == "list" else {t[0]: kids}
 
 
@@ -410,7 +437,9 @@ class C18(Prop):
             "containing operators) plus a systematic family TOP x ATOMS (7 tops: atom, !, &&, ||, ?:, ==, ?: over &&; 14 atoms whose text hides && || ? "
             "inside parentheses / brackets / braces / string literals or has none) and deep narrow trees (depth 5-9), or real Custodian clauses (value, marked-for-op, offhour, onhour, flow-logs, is-not-logging, ...) "
             "through the real rewriters, and real `type: value` clauses over 16 adversarial strings (quotes, backslashes, brackets, "
-            "&& || ? : inside the literal) evaluated under resources fixing each clause's value; all 2^k truth assignments to the k clauses (k <= 5; 40 random ones above), each realised by "
+            "&& || ? : inside the literal) evaluated under resources fixing each clause's value; real clauses (incl. used / unused on vpc, ebs, "
+            "iam-role) with the same clause / group referred to two or three times through a YAML alias (one object in several positions); "
+            "a clause text the parser rejects is a failure (all clause texts used are CEL); all 2^k truth assignments to the k clauses (k <= 5; 40 random ones above), each realised by "
             "variable bindings chosen per case. non-trivial = tree with a connective nested in a multi-child connective or a "
             "compound clause next to a sibling")
 
@@ -456,12 +485,17 @@ class C18(Prop):
                 out = C7N_Rewriter.c7n_rewrite(doc)
                 texts = [C7N_Rewriter.primitive("ec2", realval_filter(l)) for l in leaves(t)]
         else:
+            # The clause objects given to the translator are fresh copies (a rewriter that writes into its argument must not
+            # leak into other cases); with "alias" the same clause / group occurring twice is ONE object (YAML alias), without it
+            # every occurrence is a distinct equal object.  The clause texts the structure is compared with are translated
+            # one by one, each from a fresh copy: a clause means the same wherever and however often it occurs.
             res = c["resource"]
-            filt = to_c7n(t, lambda leaf: REAL[res][leaf])
+            share = {} if c.get("alias") else None
+            filt = to_c7n(t, lambda leaf: copy.deepcopy(REAL[res][leaf]), share)
             doc = yaml.safe_dump({"name": "p", "resource": res, "filters": filt})
             with contextlib.redirect_stdout(buf):
                 out = C7N_Rewriter.c7n_rewrite(doc)
-                texts = [C7N_Rewriter.primitive(res, REAL[res][l]) for l in leaves(t)]
+                texts = [C7N_Rewriter.primitive(res, copy.deepcopy(REAL[res][l])) for l in leaves(t)]
         return out, texts
 
     def _assignments(self, c) -> List[List[bool]]:
@@ -586,9 +620,19 @@ class C18(Prop):
         if out.startswith("EXC "):
             return f"{out} escaped from the translator / parser"
         ob = self._extra.get(G._key(c)) or self._observe(c)
-        if any(x is None for x in ob["clause_trees"]):
-            return None          # a clause that is not CEL by itself: outside the statement (C19)
         text = ob["text"]
+        if any(x is None for x in ob["clause_trees"]):
+            # A clause whose text the parser rejects.  The clause by itself is the translation of the one-clause filter, and
+            # every clause used here is CEL: the boolean representatives (SHAPES, TOPS x ATOMS) are sentences of the CEL
+            # grammar by construction -- e.g. `c ? a || (b) : false` has a conditional-or between `?` and `:` as the language
+            # definition allows -- and the real clauses (REAL, realval) are those whose translation is CEL.  So a parse error is
+            # a failure of "the CEL text produced by the translator parses" (the parser, or a clause rewriter, changed), not a
+            # case outside the statement.  (Before round 4 such cases were skipped, which hid a grammar that lost
+            # `||` in the true-branch of `?:`.)
+            bad = next(t for t, x in zip(ob["clauses"], ob["clause_trees"]) if x is None)
+            if ob["tree"] is None:
+                return f"translated filter does not parse: {text!r} (its clause {bad!r} does not parse by itself either)"
+            return f"clause {bad!r} does not parse by itself although it is CEL (the whole translation {text!r} parses)"
         if ob["tree"] is None:
             return f"translated filter does not parse: {text!r}"
         # structure: the emitted text, modulo parentheses, is the filter's structure over the clause trees
@@ -708,6 +752,25 @@ class C18(Prop):
             res = rng.choice(list(REAL))
             t = rand_tree(rng, rng.randint(2, 7), 4)
             cases.append({"kind": "real", "resource": res, "f": fill(t, lambda i: rng.randrange(len(REAL[res])))})
+        # the same clause / group referred to twice through a YAML alias: ONE object in several positions of the tree
+        # (class: the translator keeps state between visits -- writes into the clause it is given, memoises by identity, ...).
+        # Every real clause X of every resource in `[X, {or: [X, Y]}]`, `{not: [G, {and: [G]}]}` with the group G = {or: [X, Y]}
+        # aliased, and three occurrences `{or: [X, [X, X]]}`; plus the random trees above re-run with aliasing.
+        for res in REAL:
+            n = len(REAL[res])
+            for x in range(n):
+                y = (x + 1 + rng.randrange(n - 1)) % n
+                X, Y = ["prim", x], ["prim", y]
+                G = ["or", [X, Y]]
+                for f in (["list", [X, ["or", [X, Y]]]], ["not", [G, ["and", [G]]]], ["or", [X, ["list", [X, X]]]],
+                          ["and", [Y, ["not", [X]], X]]):
+                    cases.append({"kind": "real", "resource": res, "alias": True, "f": json.loads(json.dumps(f))})
+        for _ in range(60 if quick else 600):
+            res = rng.choice(list(REAL))
+            k = len(REAL[res])
+            pool = [rng.randrange(k) for _ in range(2)]          # few distinct clauses: repeats are the point
+            t = rand_tree(rng, rng.randint(3, 7), 4)
+            cases.append({"kind": "real", "resource": res, "alias": True, "f": fill(t, lambda i: rng.choice(pool))})
         # real `type: value` clauses with adversarial strings, evaluated against resources fixing each clause's value
         rv_trees = []
         for n in range(2, (4 if quick else 5) + 1):
